@@ -423,7 +423,10 @@ pub fn gen_limit(rng: &mut Rng, widths: &[(bool, usize, usize)], for_obj: bool) 
 			.filter(|w| w.0 == for_obj)
 			.map(|w| if pick_width { w.2 } else { w.1 })
 			.collect();
-		if cands.is_empty() || rng.chance(1, 5) {
+		if rng.chance(1, 14) {
+			// thresholds no width or count can reach
+			[usize::MAX, usize::MAX - 1, u32::MAX as usize, (u32::MAX as usize) + 1, 1 << 16, (1 << 16) - 1, i64::MAX as usize][rng.below(7)]
+		} else if cands.is_empty() || rng.chance(1, 5) {
 			rng.below(41)
 		} else {
 			let c = cands[rng.below(cands.len())];
